@@ -6,7 +6,9 @@ from . import structural, tracesleg
 def main(chk: core.Check, replay):
     if replay:
         return core.replay_generic(chk, replay)
-    structural.run(chk, "C04")
+    structural.run(chk, "C04", layout=True)
+    structural.run(chk, "C04", backend="jax", quick_models=60, thorough_models=600, layout=True)
+    structural.run(chk, "C04", backend="c", quick_models=60, thorough_models=600, layout=True)
     tracesleg.run(chk, 'C04')
 
 
